@@ -119,12 +119,15 @@ fn run_check(id: &str, tier: &str) -> i32 {
         "C10" => props::c10::run_c10(&rep),
         "C11" => props::c11::run_c11(&rep),
         "C12" => props::c12::run_c12(&rep),
+        "C13" => props::c13::run_c13(&rep),
         "C14" => props::c14::run(&rep, "C14"),
         "C15" => props::c14::run(&rep, "C15"),
         "C16" => props::c16::run_c16(&rep),
         "C17" => props::c17::run_c17(&rep),
         "C18" => props::c18::run_c18(&rep),
         "C19" => props::c19::run_c19(&rep),
+        "C20" => props::c20::run_c20(&rep),
+        "C21" => props::c21::run_c21(&rep),
         "C22" => props::c22::run_c22(&rep),
         "C24" => props::c24::run_c24(&rep),
         "C25" => props::c25::run_c25(&rep),
